@@ -86,6 +86,23 @@ class DriverCrash(Exception):
         self.what, self.log = what, log
 
 
+def run_driver_patient(name, module, args, timeout, env=None):
+    """run_driver; a driver that did not finish within its limit is run once more with twice the
+    limit.  Two time-outs in a row are an observation about the code under test (a call into
+    billiard that never returns; the drivers bound every wait of their own): DriverCrash.
+    Returns (rc, data, log) of the run that finished."""
+    rc, data, log = run_driver(module, args, timeout, env=env)
+    if rc != 'timeout':
+        return rc, data, log
+    rc2, data2, log2 = run_driver(module, args, 2 * timeout, env=env)
+    if rc2 != 'timeout':
+        return rc2, data2, log2
+    tail = [l for l in log2.splitlines() if l.strip()][-1:] or ['']
+    raise DriverCrash('%s driver: never finished, twice (limits %d s and %d s): a call into billiard '
+                      'does not return (last output: %s)' % (name, timeout, 2 * timeout, tail[0][:200]),
+                      log2[-3000:])
+
+
 def driver_failed(name, rc, log):
     """Raise DriverCrash if the driver's last traceback ends in the repository's billiard package
     (the checks report it as a violation), RuntimeError (machinery failure) otherwise."""
